@@ -13070,6 +13070,10 @@ pub struct VerifRaftState {
     pub responded: std::collections::BTreeMap<NodeId, bool>,
     /// quorum tracker: peer -> consecutive failures
     pub failures: std::collections::BTreeMap<NodeId, u32>,
+    /// fast path: embeddings recorded per leader (oldest first)
+    pub fast_path_history: std::collections::BTreeMap<NodeId, Vec<SparseVector>>,
+    /// fast path: blocks accepted on the fast path since the last full validation
+    pub fast_path_since_full: usize,
 }
 
 #[cfg(neumann_verif)]
@@ -13115,6 +13119,14 @@ impl RaftNode {
                 .iter()
                 .map(|(k, v)| (k.clone(), *v))
                 .collect(),
+            fast_path_history: self
+                .fast_path_state
+                .leader_embeddings
+                .read()
+                .iter()
+                .map(|(k, v)| (k.clone(), v.clone()))
+                .collect(),
+            fast_path_since_full: self.fast_path_validator.verif_blocks_since_full(),
         }
     }
 
@@ -13161,6 +13173,17 @@ impl RaftNode {
             for (k, v) in &s.failures {
                 f.insert(k.clone(), *v);
             }
+        }
+        {
+            let mut h = self.fast_path_state.leader_embeddings.write();
+            h.clear();
+            for (k, v) in &s.fast_path_history {
+                h.insert(k.clone(), v.clone());
+            }
+        }
+        self.fast_path_validator.reset();
+        for _ in 0..s.fast_path_since_full {
+            self.fast_path_validator.record_validation(true);
         }
     }
 }
